@@ -52,6 +52,35 @@ func CheckCLI(prop string, c *Case, proc ProcessFunc, cov *Cov) []*Violation {
 		seen[clause+known] = true
 		vs = append(vs, &Violation{Prop: prop, Clause: prop + "." + clause, Msg: "[pp command loop] " + msg, Case: c, Known: known})
 	}
+	if prop == "C09" {
+		// delivery independence of the command: the same bytes under this
+		// schedule and delivered at once give the same output and the same
+		// error
+		clk := &core.Clock{}
+		sr := iosim.NewSimReader(b, c.Sched.FitTo(len(b)), clk)
+		w := iosim.NewSimWriter(clk)
+		err, pan := callProcess(proc, sr, w)
+		clk0 := &core.Clock{}
+		w0 := iosim.NewSimWriter(clk0)
+		err0, pan0 := callProcess(proc, iosim.NewSimReader(b, iosim.OneShot(len(b)), clk0), w0)
+		if cov != nil {
+			cov.Steps += clk.Now()
+			cov.NoteReader(sr)
+			cov.Faults.Writes += w.Writes
+			cov.Evaluations++
+			cov.Probe("cli-delivery-independence")
+		}
+		switch {
+		case pan != "" || pan0 != "":
+			add("cli-panic", "", fmt.Sprintf("process() panics: under this schedule %q, delivered at once %q", pan, pan0))
+		case ErrKey(err) != ErrKey(err0):
+			add("cli-error", "", fmt.Sprintf("process() returns %s under this schedule and %s when the same bytes are delivered at once", ErrKey(err), ErrKey(err0)))
+		case err == nil && !bytes.Equal(w.Buf, w0.Buf):
+			d := FirstDiff(w.Buf, w0.Buf)
+			add("cli-output", "", fmt.Sprintf("the output differs from the output for the same bytes delivered at once (%d vs %d bytes): first difference at output byte %d: this schedule %s, at once %s", len(w.Buf), len(w0.Buf), d, Clip(w.Buf[max0(min(d, len(w.Buf))-30):], 120), Clip(w0.Buf[max0(min(d, len(w0.Buf))-30):], 120)))
+		}
+		return vs
+	}
 	// rendering of each dump alone
 	rend := make([][]byte, len(s.Dumps))
 	for i, d := range s.Dumps {
@@ -174,6 +203,9 @@ func RunCLIBatch(prop string, seed uint64, offset, stride, runs int, proc Proces
 			cfg.MaxDumps = r.Range(1, 5)
 		case "C11":
 			cfg.ExactRaceSep, cfg.NoWarnAfterSep = r.Chance(0.15), true
+		case "C09":
+			cfg.MaxDumps = r.Range(1, 4)
+			cfg.ExactRaceSep = r.Chance(0.15)
 		}
 		cfg.VeryLong = false
 		doc := gen.Generate(r, cfg)
@@ -333,7 +365,7 @@ func postCLI(prop string) func(seed uint64, tier string, cov *Cov) ([]*Violation
 }
 
 func init() {
-	for _, p := range []string{"C02", "C07", "C11"} {
+	for _, p := range []string{"C02", "C07", "C11", "C09"} {
 		extraModes[p+"/cli"] = cliCase(p)
 	}
 }
